@@ -64,6 +64,7 @@ static __thread int raise_armed_slot = -1;
 static __thread int in_libcall;
 static int handler_depth[SCHED_MAXT];
 static int libcalls_inflight[NSIGS];   /* register/unregister calls under way per signal (the harness count runs ahead of the library meanwhile) */
+static __thread int raise_before_unlock;
 static __thread struct msig *reg_in_progress; static __thread int raise_pending_unmask, pend_si; static __thread unsigned long pend_t;
 #define MAXINF 8
 static unsigned long inflight_t[NSIGS][MAXINF]; static int ninflight[NSIGS];   /* deliveries whose processing by the library may still be under way */
@@ -238,7 +239,7 @@ static void sig_register(struct owner *o, int i, int arm_raise)
 			for (int o = 0; o < nown; o++) for (int i = 0; i < MAXI; i++) { struct msig *q = &own[o].is[i]; if (q->sig == s->sig && q->need_after >= ti) q->need_after = q->last_handler; }
 		}
 	}
-	reg_in_progress = s;
+	reg_in_progress = s; raise_before_unlock = ch_n(2);
 	in_libcall = 1; s->registering = 1; libcalls_inflight[s->sig]++;
 	int r = iv_signal_register(s->iv);
 	in_libcall = 0; s->registering = 0; libcalls_inflight[s->sig]--;
@@ -258,7 +259,7 @@ static void sig_unregister(struct owner *o, int i, int arm_raise)
 	int raise_si = -1; unsigned long t = 0;
 	s->registered = 0; count_sig[s->sig]--;
 	if (arm_raise && count_sig[s->sig] >= 1 && libcalls_inflight[s->sig] == 0) { raise_si = s->sig; raise_armed = raise_si; raise_armed_slot = sched_self(); vz_label(L_RAISE_IN_LIBCALL); }
-	drop_from_groups(s);
+	drop_from_groups(s); raise_before_unlock = ch_n(2);
 	in_libcall = 1; libcalls_inflight[s->sig]++;
 	iv_signal_unregister(s->iv);
 	in_libcall = 0; libcalls_inflight[s->sig]--;
@@ -400,7 +401,8 @@ static void maybe_raise_in_libcall(void)
 	}
 }
 static void hook_epoll_ctl_pre(int epfd, int op, int fd) { (void)epfd; (void)op; (void)fd; sched_point("epoll_ctl"); }
-static void on_point(const char *why) { if (raise_armed >= 0 && !strcmp(why, "spin_unlock")) maybe_raise_in_libcall(); }
+/* the raise happens either just before the library releases its lock (signals are blocked there: it must stay pending) or just after */
+static void on_point(const char *why) { if (raise_armed >= 0 && !strcmp(why, raise_before_unlock ? "spin_unlock-pre" : "spin_unlock")) maybe_raise_in_libcall(); }
 
 static const char *excl[4] = { "", "epoll-timerfd", "epoll-timerfd epoll", "epoll-timerfd epoll ppoll" };
 
